@@ -80,10 +80,10 @@ SUITES = {
         # arbitrary byte strings as runtime code (--bytes random, --grammar instruction sequences, --mutated from
         # valid programs), as init code (--init; each also called afterwards), beneath STATICCALL chains (--static)
         driver_args=lambda tier: (["--bytes", 3000, "--grammar", 1500, "--mutated", 150, "--init", 300,
-                                   "--static", 1200, "--illformed", 1, "--tiny", 200]
+                                   "--static", 1200, "--illformed", 1, "--tiny", 200, "--edge", 69]
                                   if tier == "quick" else
                                   ["--bytes", 40000, "--grammar", 20000, "--mutated", 2000, "--init", 3000,
-                                   "--static", 15000, "--illformed", 1, "--tiny", 100000]),
+                                   "--static", 15000, "--illformed", 1, "--tiny", 100000, "--edge", 256]),
         trace=dict(module="Trace_EVM18", cfg_in="Trace_EVM18.cfg.in", workers=6, timeout=5400),
         props=["C18", "C17"],
     ),
